@@ -19,7 +19,7 @@ def digests(ids, seeds, tier='quick'):
         spec = checks.get(cid)
         for s in seeds:
             case = spec.make_case(s, tier)
-            res = run_case(case, monitors=spec.monitors(case))
+            res = spec.execute(case)
             out[f'{cid}/{s}'] = (res.digest, res.harness_error and res.harness_error[:80])
     return out
 
